@@ -60,7 +60,7 @@ def canon_kind(kind: str, v: Any, in_list: bool = False) -> Any:
     if kind == "bytes":
         return ["y", bytes(v).hex()]
     head, _, arg = kind.partition(":")
-    if head == "str":
+    if head in ("str", "str0"):
         return ["s", v]
     if head == "bool":
         return ["b", bool(v)]
